@@ -43,3 +43,50 @@ PROPS = {
         mem_gb=8,
     ),
 }
+
+CRASH_ASSUME = ["process-crash model exactly as in the property's quantifier: returned FS calls applied, in-flight call not applied or (data write) applied up to a 512-aligned offset inside the range; create/rename/remove atomic",
+                "single writer, so per-key write order is program order and the oracle is exact"]
+PROPS["C03"] = dict(
+    level="fault_enumeration",
+    runs=dict(quick=1600, thorough=40000), budget_s=dict(quick=170, thorough=1700),
+    rule="one run = one seeded single-writer history (3-40 calls; thorough 3-80) of Put/Delete/Compact/Sync/Close/Open/reads recorded once in the SimFS journal; "
+         "one evaluation = one crash point of it (every journal index, every 512-aligned tear of every write; histories with > 400 points are sampled), "
+         "i.e. one disk image recovered by the real Open and read back completely (Get/Has per key, Count, full scan, index walk, independent WAL replay); "
+         "distinct_nontrivial = distinct (image digest, point class) pairs, point class = (API op, FS op kind, file kind, torn?)",
+    real=REAL_SEQ, stub=STUB_SEQ, assumptions=CRASH_ASSUME,
+    must_reach=dict(quick=["torn_write", "recovery_ran", "segment_truncated", "pt:compact/remove/segment/pcrash", "pt:put/create/segment/pcrash", "pt:close/unlock/lock/pcrash"],
+                    thorough=["torn_write", "recovery_ran", "segment_truncated"]),
+)
+PROPS["C04"] = dict(
+    level="fault_enumeration",
+    runs=dict(quick=2400, thorough=50000), budget_s=dict(quick=170, thorough=1700),
+    rule="one run = a chain of 2-4 epochs (history, crash point); each epoch starts with the recovering Open on the previous crash image (its journal is recorded, so crash points lie inside recovery too); "
+         "one evaluation = one crash image of some epoch recovered and read back (up to 60 sampled points per epoch, continuation point biased to inside-recovery and torn writes); "
+         "oracle accumulates over the chain; the continuation image is recovered twice under different hash seeds and must give equal contents; "
+         "distinct_nontrivial = distinct (image digest, point class) pairs",
+    real=REAL_SEQ, stub=STUB_SEQ, assumptions=CRASH_ASSUME,
+    must_reach=dict(quick=["torn_write", "chain_epochs", "segment_truncated", "pt:open/truncate/segment/pcrash", "pt:open/rename/index/pcrash"], thorough=["torn_write", "chain_epochs"]),
+)
+
+PL_ASSUME = ["power-loss model exactly as in the property's quantifier: directory operations durable and ordered as issued; file data and length volatile until Sync on that file; "
+             "at the failure each file = content at its last Sync + an in-order prefix of later writes/truncations, last write cut at a 512-aligned offset",
+             "prefix choices per instant are the systematic families (all lost, all kept, exactly one file loses/keeps everything) plus two seeded random prefix vectors; they are sampled, not enumerated",
+             "single writer"]
+PROPS["C06"] = dict(
+    level="fault_enumeration",
+    runs=dict(quick=2400, thorough=50000), budget_s=dict(quick=170, thorough=1700),
+    rule="one run = a chain of 1-3 epochs of single-writer histories with Sync calls (explicit mode) or sync-after-every-write, rollovers and compactions; earlier epochs end in a process crash or a power loss, the last in a power loss; "
+         "one evaluation = one power-loss image (instant x prefix family) recovered by the real Open and read back; per key the value must be the one at the last completed sync point or one written later; "
+         "distinct_nontrivial = distinct (image digest, point class, family) triples",
+    real=REAL_SEQ, stub=STUB_SEQ, assumptions=PL_ASSUME,
+    must_reach=dict(quick=["ploss-one-file-loses-all", "ploss-random-prefixes", "segment_removed", "chain_epochs", "pt:compact/remove/segment/ploss-all-pending-lost", "pt:sync/sync/segment/ploss-all-pending-lost"], thorough=["ploss-one-file-loses-all"]),
+)
+PROPS["C09"] = dict(
+    level="fault_enumeration",
+    runs=dict(quick=2400, thorough=50000), budget_s=dict(quick=170, thorough=1700),
+    rule="one run = a seeded history (any sync mode, rollover, compaction, earlier clean restarts) ending in Close -> Open; one evaluation = one power-loss image taken at an instant between the return of that Close and the completion of the next Open "
+         "(every FS call of the Open, prefix families as in C06), recovered and read back; contents must equal the closed contents exactly; "
+         "distinct_nontrivial = distinct (image digest, point class, family) triples",
+    real=REAL_SEQ, stub=STUB_SEQ, assumptions=PL_ASSUME,
+    must_reach=dict(quick=["ploss-all-pending-lost", "ploss-random-prefixes", "pt:open/create/lock/ploss-all-pending-lost", "pt:end/ploss-all-pending-lost"], thorough=["ploss-all-pending-lost"]),
+)
